@@ -82,6 +82,10 @@ package strategy
 //@   at_call lmdb.(*Cursor).Del#0 assert deletes_what_clean_dropped: ghost_loc_cLen == 0 && (itEOF || isnil(itKey))
 //@   at_call lmdb.(*Txn).Put#0 assert rewrites_the_cleaned_value_under_its_key: arg1 == dbi && sameSlice(arg2, dbKey) && arrayOf(arg3) == ghost_loc_cArr && offsetOf(arg3) == ghost_loc_cOff && uint64(len(arg3)) == ghost_loc_cLen
 //@   at_call lmdb.(*Txn).Put#0 assert never_rewrites_an_unchanged_cleaned_value: !seqEq(arg3, dbVal)
+//@   after_call strategy.Iterator.Clean#0 ghost loc_cSame := ite(seqEq(ret0, dbVal), 1, 0)
+//@   after_call strategy.Iterator.Merge#1 ghost loc_nSame := ite(seqEq(ret0, dbVal), 1, 0)
+//@   ensures a_changed_cleaned_value_is_always_rewritten: r0 == nil && (itEOF || isnil(itKey)) && ghost_loc_cLen != 0 && ghost_loc_cSame == 0 ==> ghost_nput == old(ghost_nput) + 1
+//@   ensures a_changed_merged_value_is_always_rewritten: r0 == nil && !itEOF && !isnil(itKey) && !dbEOF && !isnil(dbKey) && ghost_loc_nLen != 0 && ghost_loc_nSame == 0 ==> ghost_nput == old(ghost_nput) + 1
 //@   at_call strategy.Iterator.Merge#0 assert new_key_merges_with_nothing: isnil(arg1) && !itEOF && !isnil(itKey)
 //@   at_call lmdb.(*Cursor).Put#0 assert appends_the_merged_value_under_the_input_key: dbEOF && sameSlice(arg1, itKey) && arrayOf(arg2) == ghost_loc_mArr && offsetOf(arg2) == ghost_loc_mOff && uint64(len(arg2)) == ghost_loc_mLen && len(arg2) > 0
 //@   at_call lmdb.(*Txn).Put#1 assert inserts_the_merged_value_under_the_input_key: !dbEOF && isnil(dbKey) && arg1 == dbi && sameSlice(arg2, itKey) && arrayOf(arg3) == ghost_loc_mArr && offsetOf(arg3) == ghost_loc_mOff && uint64(len(arg3)) == ghost_loc_mLen && len(arg3) > 0
